@@ -187,6 +187,11 @@ public:
           TO["cond"] = Last;
         if (auto *GS = dyn_cast<GotoStmt>(T))
           TO["label"] = GS->getLabel()->getNameAsString();
+        if (auto *LO = dyn_cast<BinaryOperator>(T)) {
+          auto It = Ids.find(LO);       // present only when the operator is used as a value (join block)
+          if (It != Ids.end())
+            TO["op"] = It->second;
+        }
         putLoc(TO, T->getBeginLoc());
         BOj["term"] = std::move(TO);
       }
